@@ -976,6 +976,12 @@ for ko, kt, kv in ((NONE, "None", ""), (some(v("k")), "(Some k)", " (k : list Q)
           script=MACH_SCRIPT, imports="Base.QR Model.Registry", cases=[dict(self=cself, lhs="@cached m (si, %s)" % kt, vars="(si : St m)" + kv)], rhs="{ret}")
 entry("C20", "cache_from", file=F + "cache.rs", impl=r"impl<T,\s*U>\s+From<T>\s+for\s+Cache<T,\s*U>", fn="from", params={"inner": mach("(minit m c)")}, header=MACH_HDR, prims=MACH,
       script=MACH_SCRIPT, imports="Base.QR Model.Registry", cases=[dict(self=("unit",), lhs="minit (m_cache m) c", vars="")], rhs="({ret.state.inner}, {ret.state.cached})")
+entry("C20", "cache_with_config", file=F + "cache.rs", impl=r"impl<T,\s*U>\s+WithConfig\s+for\s+Cache<T,\s*U>", fn="with_config", params={"config": ("raw", "c")}, header=MACH_HDR, prims=MACH,
+      fns={"T::with_config": lambda args: mach("(minit m c)"), "Self::from": (F + "cache.rs", r"impl<T,\s*U>\s+From<T>\s+for\s+Cache<T,\s*U>", "from", ["inner"])},
+      script=MACH_SCRIPT, imports="Base.QR Model.Registry", cases=[dict(self=("unit",), lhs="minit (m_cache m) c", vars="")], rhs="({ret.state.inner}, {ret.state.cached})")
+entry("C20", "guts_median", file=MED_RS, impl=r"impl<T,\s*const N: usize>\s+IntoGuts\s+for\s+Median<T,\s*N>", fn="into_guts", params={}, roundtrip=True, imports="Model.Median",
+      fns={"Self::from_guts": (MED_RS, r"impl<T,\s*const N: usize>\s+FromGuts\s+for\s+Median<T,\s*N>", "from_guts", ["guts"])},
+      cases=[dict(self=st(state=("obj", "minit", "s")), lhs="s", vars="(n : nat) (s : mstate T)")], rhs="{ret.state}")
 # UnitSystem<T> (the macro-generated Filter impl, one body for all five unit systems) over an arbitrary inner machine
 USELF = st(state=st(inner=mach("si")))
 entry("C20", "unit_filter_macro", file=F + "unit_system.rs", impl=r"impl<T,\s*U,\s*V>\s+Filter<\$t<V,\s*U>>\s+for\s+UnitSystem<T>", fn="filter", params={"input": ("tagged", v("i"))}, header=MACH_HDR, prims=MACH,
@@ -999,6 +1005,22 @@ entry("C20", "unit_sink_macro", file=SNKU, impl=r"impl<S,\s*U,\s*V>\s+Sink<\$t<V
 entry("C20", "unit_finalize_macro", file=SNKU, impl=r"impl<S,\s*U,\s*V>\s+Finalize\s+for\s+UnitSystem<S,\s*\$t<V,\s*U>>", fn="finalize", params={},
       header="forall (S X R : Type) (k : S -> X -> S) (fin : S -> R)", prims=SNK, imports="Proofs.Translate", script="intros. reflexivity.",
       cases=[dict(self=st(inner=("obj", "snk", "s")), lhs="unit_finalize fin s", vars="(s : S)")], rhs="", render=lambda sym, s_, r_, c_: _R.coq_V(untag(r_)))
+# the stateless stage filters (ops::{Add, Sub, Mul, Div, Neg, Square}, Identity): what a pipe of them computes is their composition
+# (C01); each body is the operator itself, operands in source order
+for nm_, ty_, lhs_, prm_, vars_ in (("add", "Add", "aadd A a b", {"input": ("tuple", [v("a"), v("b")])}, "a b"), ("sub", "Sub", "asub A a b", {"input": ("tuple", [v("a"), v("b")])}, "a b"),
+                                    ("mul", "Mul", "amul A a b", {"input": ("tuple", [v("a"), v("b")])}, "a b"), ("div", "Div", "adiv A a b", {"input": ("tuple", [v("a"), v("b")])}, "a b"),
+                                    ("neg", "Neg", "aneg A a", {"input": v("a")}, "a"), ("square", "Square", "amul A a a", {"input": v("a")}, "a")):
+    entry("C01", "ops_" + nm_, file=F + "ops/%s.rs" % nm_, impl=r"impl<T(?:,\s*U)?>\s+Filter<(?:\(T,\s*U\)|T)>\s+for\s+%s\b" % ty_, fn="filter", params=prm_,
+          cases=[dict(self=("unit",), lhs=lhs_, vars=vars_)], rhs="{ret}")
+entry("C01", "ops_identity", file=F + "identity.rs", impl=r"impl<T>\s+Filter<T>\s+for\s+Identity", fn="filter", params={"input": v("a")},
+      cases=[dict(self=("unit",), lhs="a", vars="a")], rhs="{ret}")
+# `Kalman::default()` = with_config(Config::default()): fresh state, the unit configuration r = q = a = c = 1, b = 0
+KAL = F + "observe/kalman.rs"
+for pid_ in ("C06", "C12"):
+    entry(pid_, "default_kalman", file=KAL, impl=r"impl<T>\s+Default\s+for\s+Kalman<T>", fn="default", params={},
+          fns={"Self::with_config": (KAL, r"impl<T>\s+WithConfig\s+for\s+Kalman<T>", "with_config", ["config"]), "Config::default": (KAL, r"impl<T>\s+Default\s+for\s+Config<T>", "default", [])},
+          cases=[dict(self=("unit",), lhs="(g_k_init A, (aone A, aone A, aone A, azero A, aone A))", vars="")],
+          rhs="(({ret.state.cov}, {ret.state.value}), ({ret.config.r}, {ret.config.q}, {ret.config.a}, {ret.config.b}, {ret.config.c}))")
 entry("C12", "reset_threshold", file=F + "classify/threshold.rs", impl=r"impl<T,\s*U>\s+Reset\s+for\s+Threshold<T,\s*U>", fn="reset", params={},
       cases=[dict(self=st(config=st(threshold=v("thr"), outputs=OUTS2)), lhs="(thr, o0, o1)", vars="thr o0 o1")], rhs="({ret.config.threshold}, {ret.config.outputs.0}, {ret.config.outputs.1})")
 
@@ -1024,6 +1046,11 @@ for rel, tys in (("chain.rs", ["Chain", "ChainState"]), ("take.rs", ["Take"]), (
     derived_clone("C10", REPO + "/crates/sources/src/", rel, tys)
 for rel, tys in (("pipe.rs", ["Pipe"]), ("unit_pipe.rs", ["UnitPipe"])):
     derived_clone("C01", REPO + "/crates/pipes/src/", rel, tys)
+# the two table files: their macro BODIES (normalisation, reversal and sign alternation of the Daubechies high-pass, the constructor
+# calls) are not translated - the run-time coefficient dump ties them - so their entry points are inventoried and their text pinned
+ASSERTS.setdefault("C07", []).append(dict(name="macro_daubechies", file=F + "wavelet/daubechies.rs", must=[r"macro_rules!\s+daubechies_impl_float"], message="the daubechies_impl_float macro is gone"))
+ASSERTS.setdefault("C05", []).append(dict(name="macro_savitzky_golay", file=F + "convolve/savitzky_golay.rs", must=[r"macro_rules!\s+savitzky_golay_impl_float"], message="the savitzky_golay_impl_float macro is gone"))
+derived_clone("C01", F, "ops/rem.rs", ["Rem"])      # `%` has no counterpart in the arithmetic record: the file is inventoried, the text of its body pinned
 
 # ---- C19: the audited unsafe surface --------------------------------------------------------------------
 # Everything in the windowed filters except Median::default is safe Rust, where "every owned value is dropped exactly
@@ -1084,6 +1111,25 @@ for pid_ in ("C03", "C04", "C05", "C07", "C12", "C16", "C19", "C20"):
 INVENTORY_FILE = os.path.join(os.path.dirname(os.path.abspath(__file__)), "inventory.json")
 TRAIT_METHOD_NAMES = {"filter", "source", "sink", "finalize", "reset", "reset_mut", "with_config", "config", "config_ref", "from_guts", "into_guts", "state_mut",
                       "clone", "clone_from", "default", "from", "next", "bitor", "peek", "cached", "classes", "eq", "partial_cmp", "fmt", "drop"}
+_TRANSLATED = None
+def is_translated(path, head, name):
+    """is `fn name` of the impl with this header re-read by some lemma (as an entry, an inlined associated function or a helper method)?"""
+    global _TRANSLATED
+    if _TRANSLATED is None:
+        _TRANSLATED = set()
+        for es in ENTRIES.values():
+            for e_ in es:
+                if e_.get("select") is None or True: _TRANSLATED.add((e_["file"], e_["impl"], e_["fn"]))
+                for fd in (e_.get("fns") or {}).values():
+                    if not callable(fd): _TRANSLATED.add((fd[0], fd[1], fd[2]))
+                for mname, md in list((e_.get("methods") or {}).items()) + [(k_[1], v_) for k_, v_ in (e_.get("class_methods") or {}).items()]:
+                    _TRANSLATED.add((md[0], md[1], mname))
+    for f_, rx_, fn_ in _TRANSLATED:
+        if f_ == path and fn_ == name:
+            try:
+                if re.search(rx_, head + " {"): return True
+            except re.error: pass
+    return False
 def file_inventory(path, whole_text=False):
     """trait-impl headers, imports, and every function that is an ENTRY POINT: all fns of trait impls (also overrides of provided
     methods such as Iterator::nth), `pub fn`s of inherent impls, and inherent fns of any visibility whose name is that of a trait
@@ -1097,6 +1143,7 @@ def file_inventory(path, whole_text=False):
     uses = sorted(norm(m.group(0)) for m in re.finditer(r"^\s*(?:pub\s+)?(?:use|mod|extern crate)\b[^;{]*(?:\{[^}]*\})?[^;]*;", txt, re.M))
     uses += sorted(norm(m.group(0)) for m in re.finditer(r"#!?\[(?:path\b|cfg_attr\([^\]]*\bpath\b)[^\]]*\]", txt))       # module path overrides
     entry = []
+    import hashlib as _hl
     for m in re.finditer(r"\bimpl\b[^{;]*?(?=\{)", txt):
         head = norm(m.group(0)); is_trait = bool(re.search(r"\bfor\b", head))
         try:
@@ -1110,7 +1157,17 @@ def file_inventory(path, whole_text=False):
             elif tok == "}": depth -= 1
             elif depth == 1:
                 name = fm.group(1); public = tok.lstrip().startswith("pub")
-                if is_trait or public or name in TRAIT_METHOD_NAMES or name.startswith("$"): entry.append("%s :: %s%s" % (head, "pub " if public else "", name))
+                if is_trait or public or name in TRAIT_METHOD_NAMES or name.startswith("$"):
+                    # an entry point whose body no lemma re-reads (Default / From / Debug impls, accessors, ..): its text is pinned
+                    tag = ""
+                    if not is_translated(path, head, name):
+                        try:
+                            j_ = blk.index("(", fm.start()); pt_ = _bal(blk, j_, "(", ")")
+                            rest_ = blk[j_ + len(pt_):]; semi_ = rest_.find(";"); br_ = rest_.find("{")
+                            body_ = "" if (br_ < 0 or 0 <= semi_ < br_) else _bal(rest_, br_)
+                            tag = " #" + _hl.sha256(norm(pt_ + body_).encode()).hexdigest()[:12]
+                        except Exception: tag = " #?"
+                    entry.append("%s :: %s%s%s" % (head, "pub " if public else "", name, tag))
     dbg = sorted(norm(m.group(0)) for m in re.finditer(r"\bdebug_assert(?:_eq|_ne)?!\s*\((?:[^()]|\((?:[^()]|\([^()]*\))*\))*\)", txt))
     # macros: every macro_rules! definition (its name; impls and fns inside its body are seen by the scans above, `$name`
     # placeholders included) and every item-level invocation; conditional compilation: every cfg / cfg_attr attribute and cfg!()
@@ -1141,7 +1198,11 @@ def build_inventory():
     """what decides HOW the sources are compiled: section headers of the workspace manifest, the [dependencies] / [features]
     tables of every crate manifest, and the presence of files that change a build behind the sources' back"""
     norm = lambda t: " ".join(t.split())
-    inv = {"workspace_sections": re.findall(r"(?m)^\s*(\[[^\]]+\])", open(REPO + "/Cargo.toml").read())}
+    inv = {"workspace_sections": re.findall(r"(?m)^\s*(\[[^\]]+\])", open(REPO + "/Cargo.toml").read()),
+           # every line of the workspace manifest (comments stripped): a `path = ..` added to a [workspace.dependencies] entry swaps the
+           # code behind an unchanged `use` line for every crate AND for the harness, which inherits the workspace's requirements
+           "workspace_manifest_lines": [norm(re.sub(r"#.*$", "", l_)) for l_ in open(REPO + "/Cargo.toml").read().split("\n") if norm(re.sub(r"#.*$", "", l_))]}
+    inv["vendored_dirs"] = sorted(d_ for d_ in os.listdir(REPO) if os.path.isdir(os.path.join(REPO, d_)) and d_ not in ("crates", "target", ".git", ".github") and not d_.startswith("."))
     for c_ in sorted(os.listdir(REPO + "/crates")):
         mf = os.path.join(REPO, "crates", c_, "Cargo.toml")
         if not os.path.isfile(mf): continue
